@@ -135,6 +135,17 @@ def main : IO Unit := do
       (fun (n, _, d) => do
         let len ← dataLenLines d
         if n ≥ len then pure none else pure (lineOffset d n))
+  let tss : List Nat := [0, 1, 72623859790382856, 18446744073709551615, 4294967296, 281474976710656, 65535, 4294901760]
+  firstDiff "meta::write" (pairs tss ((List.range 14) ++ [67, 68, 69, 131, 132, 200]))
+    (fun (ts, p) => write (le8 ts) p) (fun (ts, p) => .ok (metaWrite p ts, metaSize p))
+  let mkLine := fun (p seed : Nat) => (List.range (p + 2)).map fun i => UInt8.ofNat ((seed * 37 + i * 11 + 1) % 251)
+  let readIn : List (Nat × Nat) := (pairs ((List.range 10) ++ [67, 68]) (List.range 7))
+  firstDiff "meta::read" readIn
+    (fun (p, k) => read ((List.range k).map fun j => mkLine p (j + 3)) (mkLine p 1) (mkLine p 2))
+    (fun (p, k) =>
+      let chunks := (List.range k).map fun j => mkLine p (j + 3)
+      .ok (if chunks.length < rawCount p then MetaResult.outOfLines chunks.length
+           else MetaResult.gotMeta (leN 8 (metaTs p (mkLine p 1) (mkLine p 2) (chunks.take (rawCount p))))))
   let smalls := (pairs vals64 vals64)
   firstDiff "RoughPos::start_small_ts" smalls (fun (t, f) => RoughPos_start_small_ts ⟨t, .clipped, f, 0, .gap 0, 0⟩) (fun (t, f) => smallOf t f)
   firstDiff "RoughPos::end_small_ts" smalls (fun (t, f) => RoughPos_end_small_ts ⟨0, .clipped, 0, t, .gap 0, f⟩) (fun (t, f) => smallOf t f)
